@@ -347,6 +347,13 @@ func ownCheck(prop string, apis, policies []string, paused bool, differential bo
 	wg.Wait()
 	rep.AddStates(n, n)
 	rep.Validated = n
+	if prop == "C10" {
+		// writes on pods and revisions that fail or conflict and are retried from the caches
+		faultPhase(rep, "C10", []string{world.FConflict, world.FConflictFresh, world.FErr500, world.FGone},
+			func(c *world.Call) bool {
+				return c.IsWrite() && (c.Resource == "pods" || c.Resource == "controllerrevisions")
+			}, time.Now().Add(3*time.Minute))
+	}
 	return rep.Finish()
 }
 
@@ -406,7 +413,7 @@ var _ appsv1.ControllerRevision
 func init() {
 	register("c10", "ownership: only owned objects are touched; adoption needs fresh confirmation", func([]string) int {
 		return ownCheck("C10", []string{"same", "api-deleting", "other-uid", "absent"}, []string{"Parallel", "OrderedReady"}, false, true,
-			"Oracle: adoption patches only on orphan, matching, well-named, live pods after an uncached read confirming UID and no deletion; releases only for owned non-matching pods, never deleted; no write on anything controlled by another owner; status counts claimed pods only; the set is written only through status; differential: writes equal those of the same snapshot without foreign-owned objects.")
+			"Oracle: adoption patches only on orphan, matching, well-named, live pods after an uncached read confirming UID and no deletion; releases only for owned non-matching pods, never deleted; no write on anything controlled by another owner; status counts claimed pods only; the set is written only through status; differential: writes equal those of the same snapshot without foreign-owned objects. Plus a fault phase: from the C09 seed closure every write on pods/revisions is hit by a conflict (stale or refreshed cache), an InternalError or a concurrent delete, and the same monitor (incl. cached objects left unmodified) judges the faulted and the recovery reconciles.")
 	})
 	register("c13", "history truncation", func([]string) int {
 		return ownCheck("C13", []string{"same"}, []string{"Parallel"}, false, false,
